@@ -37,6 +37,7 @@ const findingKey = "committed-txn-hidden-behind-inflight-sample"
 type smp struct {
 	Series int   `json:"s"` // 1-based series number
 	T      int64 `json:"t"`
+	H      int   `json:"h,omitempty"` // histogram layout code (histogram series only), see mkHist
 }
 
 type txn struct {
@@ -60,7 +61,7 @@ type sched struct {
 	Prefill int     `json:"prefill"`
 	Policy  int     `json:"reader_policy"` // 0 keep all open, 1 close one step later, 2 close at once
 	Mmap    bool    `json:"mmap_each_step"`
-	Kinds   []int   `json:"kinds,omitempty"` // per series 0..NSeries: 0 float, 1 histogram, 2 float histogram
+	Kinds   []int   `json:"kinds,omitempty"` // per series 0..NSeries: 0 float, 1 histogram, 2 float histogram, 3 NHCB, 4 float NHCB
 	Shape   string  `json:"shape"`
 	Corpus  string  `json:"corpus,omitempty"`
 	Notes   string  `json:"notes,omitempty"`
@@ -137,10 +138,12 @@ type runner struct {
 	action  int
 	reads   []readRec
 	// statistics
-	midCommitReads, cuts, mmaps, commitRejects, appendRejects, maxRing, trims int
-	lastCount                                                                 map[int]uint32
-	lastSeries                                                                map[int]string
-	keepOldest                                                                int
+	midCommitReads, cuts, mmaps, commitRejects, appendRejects, maxRing, trims, recodes, histResets int
+	lastCount                                                                                      map[int]uint32
+	lastSeries                                                                                     map[int]string
+	keepOldest                                                                                     int
+	lastHist                                                                                       map[int][3]int
+	lastTotal                                                                                      map[int]int
 }
 
 type readRec struct {
@@ -154,6 +157,50 @@ func (sc *sched) kind(series int) int {
 		return sc.Kinds[series]
 	}
 	return 0
+}
+
+// class: in which loop of Commit a series' samples are applied (0 commitFloats,
+// 1 commitHistograms, 2 commitFloatHistograms).
+func classOf(kind int) int { return [5]int{0, 1, 2, 1, 2}[kind] }
+
+// histogram layout codes: 0 one bucket, 1 two buckets, 2 three buckets (more buckets than the
+// open chunk's layout = the chunk is recoded; fewer = a bucket vanished = counter reset = new
+// chunk), 3 counter reset (count 1), 4 gauge with one bucket, 5 gauge with two buckets (gauge
+// after counter or back = new chunk; gauge chunks recode in both directions), 6 two buckets
+// and, for NHCB, different custom bounds (new chunk).  Bucket counts are the timestamp, so
+// they grow along a series and only codes 3 / shrinking layouts reset.  Sum carries the value.
+func histBuckets(code int) int { return [7]int{1, 2, 3, 1, 1, 2, 2}[code] }
+
+func mkHist(kind, code int, t int64, val float64) (*histogram.Histogram, *histogram.FloatHistogram) {
+	n := histBuckets(code)
+	c := t
+	if code == 3 {
+		c = 1
+	}
+	hint := histogram.UnknownCounterReset
+	if code == 4 || code == 5 {
+		hint = histogram.GaugeType
+	}
+	var schema int32
+	var custom []float64
+	if kind >= 3 {
+		schema = histogram.CustomBucketsSchema
+		custom = []float64{1, 2, 3}
+		if code == 6 {
+			custom = []float64{1, 2, 3, 4}
+		}
+	}
+	spans := []histogram.Span{{Offset: 0, Length: uint32(n)}}
+	if classOf(kind) == 1 {
+		b := make([]int64, n)
+		b[0] = c
+		return &histogram.Histogram{Schema: schema, Count: uint64(int64(n) * c), Sum: val, PositiveSpans: spans, PositiveBuckets: b, CustomValues: custom, CounterResetHint: hint}, nil
+	}
+	b := make([]float64, n)
+	for i := range b {
+		b[i] = float64(c)
+	}
+	return nil, &histogram.FloatHistogram{Schema: schema, Count: float64(int64(n) * c), Sum: val, PositiveSpans: spans, PositiveBuckets: b, CustomValues: custom, CounterResetHint: hint}
 }
 
 func lsetOf(i int) labels.Labels {
@@ -226,6 +273,18 @@ func (r *runner) obsSeries(force bool) {
 func (r *runner) layout(i int) (hd int, count uint32) {
 	_, h, _, _, c, _ := r.h.VerifC05Series(lsetOf(i))
 	return len(h), c
+}
+
+func (r *runner) totalSamples(i int) int {
+	mm, h, _, _, _, _ := r.h.VerifC05Series(lsetOf(i))
+	n := 0
+	for _, x := range mm {
+		n += x
+	}
+	for _, x := range h {
+		n += x
+	}
+	return n
 }
 
 func readAll(q storage.Querier) map[int][]pair {
@@ -354,6 +413,29 @@ func (r *runner) applyEvent(a *appState, s smp, k int, hdBefore int) {
 	if cut {
 		r.cuts++
 	}
+	if kind := r.sc.kind(s.Series); kind > 0 {
+		// what the layout code did to the open chunk (measured on the chunk list: a sample that
+		// extends the previous sample's layout and opens no chunk went through the recode path)
+		tot := r.totalSamples(s.Series)
+		if tot > r.lastTotal[s.Series] {
+			prev, had := r.lastHist[s.Series]
+			fam := [2]int{0, 0}
+			if s.H == 4 || s.H == 5 {
+				fam[0] = 1
+			}
+			if kind >= 3 && s.H == 6 {
+				fam[1] = 1
+			}
+			if had && !cut && prev[1] == fam[0] && prev[2] == fam[1] && histBuckets(s.H) > prev[0] {
+				r.recodes++
+			}
+			if had && cut {
+				r.histResets++
+			}
+			r.lastHist[s.Series] = [3]int{histBuckets(s.H), fam[0], fam[1]}
+		}
+		r.lastTotal[s.Series] = tot
+	}
 	r.emit(fmt.Sprintf("IEv (EApply %s %d %s %s %s)", gallina.ZU(a.id), s.Series, gallina.Z(s.T), gallina.Z(int64(a.id)*1000+int64(k)), gallina.Bool(cut)))
 	r.noteRing(s.Series)
 }
@@ -369,12 +451,10 @@ func (r *runner) newAppender(samples []smp) *appState {
 		}
 		val := float64(int64(id)*1000 + int64(k))
 		var err error
-		switch r.sc.kind(s.Series) {
-		case 1:
-			_, err = a.app.AppendHistogram(0, lsetOf(s.Series), s.T, &histogram.Histogram{Sum: val}, nil)
-		case 2:
-			_, err = a.app.AppendHistogram(0, lsetOf(s.Series), s.T, nil, &histogram.FloatHistogram{Sum: val})
-		default:
+		if kind := r.sc.kind(s.Series); kind > 0 {
+			h, fh := mkHist(kind, s.H, s.T, val)
+			_, err = a.app.AppendHistogram(0, lsetOf(s.Series), s.T, h, fh)
+		} else {
 			_, err = a.app.Append(0, lsetOf(s.Series), s.T, val)
 		}
 		if err != nil {
@@ -399,9 +479,9 @@ func (r *runner) newAppender(samples []smp) *appState {
 // nextPending returns the index of the accepted sample the Commit applies next: within the
 // (single) batch all floats in Append order, then the histograms, then the float histograms.
 func (r *runner) nextPending(a *appState) int {
-	for kind := 0; kind <= 2; kind++ {
+	for class := 0; class <= 2; class++ {
 		for i := range a.accepted {
-			if a.accepted[i].Series >= 0 && !a.done[i] && r.sc.kind(a.accepted[i].Series) == kind {
+			if a.accepted[i].Series >= 0 && !a.done[i] && classOf(r.sc.kind(a.accepted[i].Series)) == class {
 				return i
 			}
 		}
@@ -457,7 +537,7 @@ func (r *runner) advance(a *appState) {
 		r.emit(fmt.Sprintf("IEv (EClose %s)", gallina.ZU(a.id)))
 		return
 	}
-	if idx < 0 || site != siteOfKind[r.sc.kind(a.accepted[idx].Series)] {
+	if idx < 0 || site != siteOfKind[classOf(r.sc.kind(a.accepted[idx].Series))] {
 		panic(fmt.Sprintf("unexpected pause at %s (next pending sample %d)", site, idx))
 	}
 	r.applyEvent(a, a.accepted[idx], idx, hdBefore)
@@ -531,7 +611,7 @@ func runSchedule(root string, sc *sched, keepOldest int) outcome {
 	if err := h.Init(0); err != nil {
 		panic(err)
 	}
-	r := &runner{h: h, sc: sc, closed: map[uint64]bool{}, lastCount: map[int]uint32{}, lastSeries: map[int]string{}, keepOldest: keepOldest}
+	r := &runner{h: h, sc: sc, closed: map[uint64]bool{}, lastCount: map[int]uint32{}, lastSeries: map[int]string{}, keepOldest: keepOldest, lastHist: map[int][3]int{}, lastTotal: map[int]int{}}
 
 	// set-up transaction (appendID 1): initialises the head's time range through the init
 	// appender; writes series 0 and, optionally, a prefix of every test series.
@@ -686,13 +766,13 @@ func tokensOf(a int, t txn) []token {
 // then histograms, then float histograms; Append order within a kind).
 func applyOrder(t txn, kinds []int) []int {
 	var o []int
-	for kind := 0; kind <= 2; kind++ {
+	for class := 0; class <= 2; class++ {
 		for j, s := range t.Samples {
 			k := 0
 			if s.Series < len(kinds) {
 				k = kinds[s.Series]
 			}
-			if k == kind {
+			if classOf(k) == class {
 				o = append(o, j)
 			}
 		}
@@ -806,13 +886,19 @@ func main() {
 		if len(sc.Kinds) > 0 {
 			meta.Hit("histogram-series")
 		}
+		if st.recodes > 0 {
+			meta.Hit("histogram-chunk-recoded")
+		}
+		if st.histResets > 0 {
+			meta.Hit("histogram-new-chunk(reset/gauge/bounds)")
+		}
 		meta.Hit(fmt.Sprintf("policy-%d", sc.Policy))
 		id++
 	}
 
 	// ---- corpus: the finding (DESIGN section 7, defect 7) through a really paused Commit
 	{
-		txns := []txn{{Samples: []smp{{1, 110}, {2, 130}}}, {Samples: []smp{{1, 120}, {2, 120}}}}
+		txns := []txn{{Samples: []smp{{Series: 1, T: 110}, {Series: 2, T: 130}}}, {Samples: []smp{{Series: 1, T: 120}, {Series: 2, T: 120}}}}
 		// A applies S1@110 and pauses; B applies S1@120, S2@120 and closes; queriers after every step
 		order := []token{{'N', 0}, {'N', 1}, {'S', 0}, {'S', 1}, {'S', 1}, {'S', 1}, {'S', 0}, {'S', 0}}
 		for _, pol := range []int{0, 1, 2} {
@@ -825,7 +911,7 @@ func main() {
 	// first querier stays open (policy 0) or queriers live for one step (policy 1): a clean-up
 	// bound taken from the wrong reader (or from no reader) trims ids the old querier still needs.
 	{
-		txns := []txn{{Samples: []smp{{1, 110}, {2, 115}}}, {Samples: []smp{{1, 120}}}, {Samples: []smp{{1, 130}, {2, 135}}}, {Samples: []smp{{1, 140}}}}
+		txns := []txn{{Samples: []smp{{Series: 1, T: 110}, {Series: 2, T: 115}}}, {Samples: []smp{{Series: 1, T: 120}}}, {Samples: []smp{{Series: 1, T: 130}, {Series: 2, T: 135}}}, {Samples: []smp{{Series: 1, T: 140}}}}
 		var order []token
 		for a := range txns {
 			order = append(order, tokensOf(a, txns[a])...)
@@ -867,6 +953,34 @@ func main() {
 		}
 	}
 
+	// ---- corpus: histogram chunk recode / counter reset / gauge / custom bounds in the middle of a
+	// commit.  Series 1 and 2 hold histograms with a committed prefix of one-bucket samples;
+	// appender 0 applies a sample with MORE buckets (the open chunk is recoded) and pauses;
+	// appender 1 commits completely behind it (another recode, then a reset or a gauge sample);
+	// queriers are created after every step.
+	{
+		type hc struct {
+			name   string
+			kinds  []int
+			c0, c1 []int // layout codes of appender 0's and appender 1's samples
+		}
+		for _, c := range []hc{
+			{"hist-recode-mid-commit", []int{0, 1, 1}, []int{1, 2}, []int{2, 1}},
+			{"floathist-recode-mid-commit", []int{0, 2, 2}, []int{1, 2}, []int{2, 1}},
+			{"nhcb-recode-and-bounds-mid-commit", []int{0, 3, 4}, []int{1, 6}, []int{2, 1}},
+			{"hist-reset-mid-commit", []int{0, 1, 2}, []int{1, 3}, []int{3, 0}},
+			{"hist-gauge-mid-commit", []int{0, 1, 2}, []int{4, 5}, []int{5, 5}},
+		} {
+			txns := []txn{{Samples: []smp{{Series: 1, H: c.c0[0]}, {Series: 1, H: c.c0[1]}}}, {Samples: []smp{{Series: 1, H: c.c1[0]}, {Series: 2, H: c.c1[1]}}}}
+			order := []token{{'N', 0}, {'S', 0}, {'N', 1}, {'S', 1}, {'S', 1}, {'S', 1}, {'S', 0}, {'S', 0}}
+			for _, pol := range []int{1, 0} {
+				t := cloneTxns(txns)
+				consistentTimes(t, order, c.kinds)
+				emit(&sched{Txns: t, Order: order, NSeries: 2, SPC: 120, Prefill: 2, Policy: pol, Kinds: c.kinds, Corpus: c.name})
+			}
+		}
+	}
+
 	// ---- exhaustive: 2 appenders x 2 series x 1..2 samples, every interleaving
 	type variation struct {
 		policy, prefill, spc int
@@ -880,14 +994,27 @@ func main() {
 			return []int{0, 0, 1}
 		case 2:
 			return []int{0, 2, 1}
+		case 3:
+			return []int{0, 3, 4}
 		}
 		return nil
 	}
+	// layout codes for the samples that go to histogram series
+	histCodes := func(r *gen.Rand, txns []txn, kinds []int) {
+		for a := range txns {
+			for j := range txns[a].Samples {
+				s := txns[a].Samples[j].Series
+				if s < len(kinds) && kinds[s] > 0 {
+					txns[a].Samples[j].H = int(r.PickI64(0, 1, 1, 2, 2, 3, 4, 5, 6))
+				}
+			}
+		}
+	}
 	variations := []variation{
 		{1, 0, 1, false, false, -1, 0}, {2, 0, 1, true, false, -1, 0}, {0, 0, 120, false, false, -1, 0},
-		{1, 3, 1, true, false, -1, 0}, {2, 1, 2, false, false, -1, 1}, {1, 0, 1, false, true, -1, 0},
-		{2, 3, 1, true, true, -1, 0}, {1, 1, 1, false, false, 0, 0}, {2, 0, 1, true, false, 1, 1},
-		{0, 3, 1, true, false, -1, 0}, {1, 4, 1, true, false, -1, 2}, {2, 2, 120, false, true, 1, 0},
+		{1, 3, 1, true, false, -1, 0}, {2, 1, 2, false, false, -1, 1}, {1, 2, 1, false, true, -1, 3},
+		{2, 3, 1, true, true, -1, 2}, {1, 1, 1, false, false, 0, 0}, {2, 0, 1, true, false, 1, 1},
+		{0, 3, 1, true, false, -1, 3}, {1, 4, 1, true, false, -1, 2}, {2, 2, 120, false, true, 1, 0},
 	}
 	perSchedule := 1
 	if f.Tier == "thorough" {
@@ -933,6 +1060,7 @@ func main() {
 				for j := 0; j < perSchedule; j++ {
 					v := variations[(start+j*5)%len(variations)]
 					txns := cloneTxns(base)
+					histCodes(r, txns, kindsOf(v.hist))
 					ord := order
 					if v.rb >= 0 {
 						txns[v.rb].Rollback = true
@@ -997,11 +1125,12 @@ func main() {
 			}
 		}
 		var kinds []int
-		if r.Chance(1, 3) {
+		if r.Chance(1, 2) {
 			kinds = make([]int, ns+1)
 			for j := 1; j <= ns; j++ {
-				kinds[j] = int(r.PickI64(0, 0, 1, 2))
+				kinds[j] = int(r.PickI64(0, 0, 1, 1, 2, 3, 4))
 			}
+			histCodes(r, txns, kinds)
 		}
 		if r.Chance(1, 4) {
 			fixedTimes(txns)
